@@ -234,27 +234,58 @@ def run(ctx):
     sw = ctx.anchor_func("flow.record.adapter.split.SplitWriter.write")
     scfg = CFG(sw)
     wcall = next((c for c in calls_in(sw) if norm(c.func) == "self.writer.write"), None)
-    sw_alias = single_assign_aliases(sw)
-    limit_if = next((st for st in walk_no_nested(sw) if isinstance(st, ast.If) and isinstance(expand_aliases(st.test, sw_alias), ast.Compare)
-                     and "self.count" in norm(expand_aliases(st.test, sw_alias))), None)
-    if wcall is None or limit_if is None:
+    from .. import logic as _lg17
+    if wcall is None:
         raise AnalysisError("R17.4: SplitWriter.write structure not recognised")
-    limit_test = expand_aliases(limit_if.test, sw_alias)
-    ctx.check(scfg.dominates(scfg.node_of(wcall).id, scfg.node_of(limit_if).id), "R17.4", "SplitWriter.write:write-before-test", "the limit is tested before the record is written", sw,
-              "record written first")
-    op = limit_test.ops[0]
-    ge = isinstance(op, ast.GtE) and norm(limit_test.left) == "self.written" and norm(limit_test.comparators[0]) == "self.count"
-    le = isinstance(op, ast.LtE) and norm(limit_test.left) == "self.count" and norm(limit_test.comparators[0]) == "self.written"
-    ctx.check(ge or le, "R17.4", "SplitWriter.write:limit-test",
-              f"limit test is `{norm(limit_test)}`: a part can exceed the limit", limit_if, "self.written >= self.count", key="R17.4:SplitWriter.write:limit-test")
-    seq = []
-    for st in limit_if.body:
-        if isinstance(st, ast.Expr) and isinstance(st.value, ast.Call):
-            seq.append(norm(st.value.func))
-        elif isinstance(st, ast.Assign):
-            seq.append(norm(st.targets[0]) + "=" + (norm(st.value.func) if isinstance(st.value, ast.Call) else norm(st.value)))
+    # the four effects of a rotation, found by what they do
+    eff = {}
+    for c in calls_in(sw):
+        if norm(c.func) == "self.flush":
+            eff["self.flush"] = c
+        elif norm(c.func) == "self.close":
+            eff["self.close"] = c
+    for st in walk_no_nested(sw):
+        if isinstance(st, ast.Assign) and norm(st.targets[0]) == "self.written" and isinstance(st.value, ast.Constant) and st.value.value == 0:
+            eff["self.written=0"] = st
+        if isinstance(st, ast.Assign) and norm(st.targets[0]) == "self.writer" and isinstance(st.value, ast.Call) and norm(st.value.func).endswith("RecordWriter"):
+            eff["self.writer=RecordWriter"] = st
     want = ["self.flush", "self.close", "self.written=0", "self.writer=RecordWriter"]
-    ctx.check(seq == want, "R17.4", "SplitWriter.write:rotation-order", f"on the limit the writer does {seq}", limit_if, " -> ".join(want), key="R17.4:SplitWriter.write:rotation-order")
+    if "self.close" not in eff:
+        raise AnalysisError("R17.4: SplitWriter.write structure not recognised")
+    limit_if = eff["self.close"]
+    cn = scfg.node_of(eff["self.close"])
+    ctx.check(scfg.dominates(scfg.node_of(wcall).id, cn.id), "R17.4", "SplitWriter.write:write-before-test", "the limit is tested before the record is written", sw,
+              "record written first")
+    # the part is closed exactly when it is full: (a) wherever the rotation runs, written >= count holds; (b) with written >= count the method cannot end without it
+    prem17 = _lg17.facts_as_premises(scfg.facts_at(cn.id))
+    goal17 = _lg17.parse("self.written >= self.count")
+    only_when = _lg17.implies(prem17, goal17)
+
+    def full(atom):
+        try:
+            a = _lg17.parse(atom)
+        except Exception:
+            return None
+        if _lg17.equivalent(a, goal17):
+            return True
+        if _lg17.equivalent(a, ast.UnaryOp(op=ast.Not(), operand=goal17)):
+            return False
+        if atom == "self.is_stdout":
+            return False
+        return None
+
+    incs = [st for st in walk_no_nested(sw) if isinstance(st, ast.AugAssign) and norm(st.target) == "self.written"]
+    start17 = scfg.node_of(incs[0]).id if incs else scfg.node_of(wcall).id
+    always_when = scfg.exit not in _lg17.reachable_assuming(scfg, start17, full, avoid=lambda n: n.id == cn.id)
+    ctx.check(only_when and always_when, "R17.4", "SplitWriter.write:limit-test",
+              ("the part is closed although `self.written >= self.count` need not hold" if not only_when else "with `self.written >= self.count` the method can end without closing the part") +
+              ": a part can exceed the limit / be cut short", limit_if, "rotation exactly when self.written >= self.count", key="R17.4:SplitWriter.write:limit-test")
+    present = [k for k in want if k in eff]
+    in_order = present == want and all(scfg.dominates(scfg.node_of(eff[a]).id, scfg.node_of(eff[b]).id) and scfg.node_of(eff[a]).id != scfg.node_of(eff[b]).id
+                                       for a, b in zip(want, want[1:]))
+    # nothing else with an effect between them: the nodes strictly between close and the new writer are the reset only
+    seq = [k for k in sorted(present, key=lambda k: ordkey(eff[k]))]
+    ctx.check(in_order and seq == want, "R17.4", "SplitWriter.write:rotation-order", f"on the limit the writer does {seq}", limit_if, " -> ".join(want), key="R17.4:SplitWriter.write:rotation-order")
     inc = [st for st in walk_no_nested(sw) if isinstance(st, ast.AugAssign) and norm(st.target) == "self.written"]
     ctx.check(len(inc) == 1 and isinstance(inc[0].op, ast.Add) and norm(inc[0].value) == "1" and scfg.dominates(scfg.node_of(wcall).id, scfg.node_of(inc[0]).id), "R17.4",
               "SplitWriter.write:counter", "the part counter is not incremented by one per written record", sw, "self.written += 1 after the write")
@@ -325,11 +356,29 @@ def run(ctx):
             for st in walk_no_nested(ref):
                 if isinstance(st, ast.Assign) and norm(st.targets[0]) == dst.id:
                     dst_def = st.value
-        stamp_in = dst_def is not None and "stamp" in norm(dst_def)
-        # the stamp's clock value: reaching definition must be a clock call inside this function
-        now_defs = [st for st in walk_no_nested(ref) if isinstance(st, ast.Assign) and norm(st.targets[0]) == "now"]
-        clock = bool(now_defs) and all(isinstance(st.value, ast.Call) and (call_name(st.value) or "").endswith(("datetime.now", "datetime.utcnow", "time.time", "_utcnow"))
-                                       for st in now_defs)
+        # provenance: which locals derive (through assignments, formatting, comprehensions, next()) from a clock read inside THIS function
+        def _is_clock(c):
+            return isinstance(c, ast.Call) and (call_name(c) or "").endswith(("datetime.now", "datetime.utcnow", "time.time", "_utcnow", "time.time_ns"))
+
+        clocked = set()
+        assigns17 = [st for st in ast.walk(ref) if isinstance(st, ast.Assign) and len(st.targets) == 1]
+        grew17 = True
+        while grew17:
+            grew17 = False
+            for st in assigns17:
+                tnames = [x.id for x in ast.walk(st.targets[0]) if isinstance(x, ast.Name)]
+                if all(t in clocked for t in tnames):
+                    continue
+                if any(_is_clock(x) for x in ast.walk(st.value)) or any(isinstance(x, ast.Name) and x.id in clocked for x in ast.walk(st.value)) \
+                        or "**locals()" in norm(st.value).replace(" ", "") and clocked:
+                    clocked |= set(tnames)
+                    grew17 = True
+        now_defs = [st for st in assigns17 if any(_is_clock(x) for x in ast.walk(st.value))]
+        stamp_in = isinstance(dst, ast.Name) and dst.id in clocked
+        clock = bool(now_defs)
+        # a stamp handed in from outside (parameter, attribute) is not a clock read at rotation time
+        if isinstance(dst, ast.Name) and not stamp_in and dst_def is not None and "stamp" in norm(dst_def):
+            stamp_in, clock = True, False
         ctx.check(stamp_in and clock, "R17.4", "rotate_existing_file:stamp",
                   ("the rename target does not carry a rotation stamp" if not stamp_in else
                    f"the rotation stamp comes from `{norm(now_defs[0].value) if now_defs else '?'}`, not from the clock at rotation time: two rotations of the same path by one writer "
@@ -342,6 +391,13 @@ def run(ctx):
 
         prem = _lg.facts_as_premises(fcfg.facts_at(fcfg.node_of(ren[0]).id))
         exists_guard = any(_lg.implies(prem, _lg.parse(f"not {fnm}({dtext})")) for fnm in ("os.path.exists", "os.path.lexists"))
+        # ... or the target was CHOSEN as a candidate that does not exist: dst = next(c for c in candidates if not os.path.exists(c))
+        if not exists_guard and dst_def is not None:
+            for g in [n for n in ast.walk(dst_def) if isinstance(n, (ast.GeneratorExp, ast.ListComp)) and len(n.generators) == 1 and isinstance(n.elt, ast.Name)]:
+                ev = n_ = g.elt.id
+                for cnd in g.generators[0].ifs:
+                    if any(_lg.equivalent(cnd, _lg.parse(f"not {fnm}({ev})")) for fnm in ("os.path.exists", "os.path.lexists")):
+                        exists_guard = True
         ctx.check(exists_guard, "R17.4", "rotate_existing_file:never-overwrites",
                   f"os.rename(src, {dtext}) replaces an existing {dtext} silently (POSIX): the stamp has one-second resolution and nothing tests whether the target exists, so two "
                   "rotations of one path within a second lose the first rotated file", ren[0], "existence of the target is tested before renaming",
